@@ -58,7 +58,7 @@ func externPolicy(pkgPath, full string) string {
 	switch pkgPath {
 	case "strings", "strconv", "unicode", "unicode/utf8", "path", "path/filepath", "go/types", "go/token", "go/constant",
 		"reflect", "errors", "slices", "maps", "regexp", "golang.org/x/text/cases", "golang.org/x/text/language",
-		"github.com/octohelm/x/types", "github.com/octohelm/x/reflect", "github.com/octohelm/x/ptr", "go/format", "math":
+		"github.com/octohelm/x/types", "github.com/octohelm/x/reflect", "github.com/octohelm/x/ptr", "github.com/octohelm/x/context", "go/format", "math":
 		return "pure"
 	case "go/ast":
 		if strings.HasSuffix(full, ".Inspect") || strings.HasSuffix(full, ".Walk") || strings.HasSuffix(full, "SortImports") {
@@ -407,6 +407,142 @@ func init() {
 		return []Term{fv.w.SeqLen(c.args[1]), Null}
 	})
 	externEffects["io.WriteString"] = "content"
+	// ---- reflect ----
+	reg("reflect.New", "reflect.New(T): a Value holding a FRESH non-nil pointer (to a zero T)", func(fv *FuncVerifier, st *State, env *Env, c *CallCtx) []Term {
+		p := fv.fresh("reflnew", SRef)
+		st.Assume(Not(eqT(p, Null)))
+		al := fv.heapGet(st, "$ghost:alloc", "(Array Ref Bool)")
+		st.Assume(Not(App(SBool, "select", al, p)))
+		st.heap["$ghost:alloc"] = App(al.Sort, "store", al, p, True)
+		v := fv.fresh("reflval", SRef)
+		fv.w.UFun("rv_iface", []Sort{SRef}, SRef, "")
+		st.Assume(eqT(App(SRef, "rv_iface", v), p))
+		return []Term{v}
+	})
+	reg("(reflect.Value).Interface", "Value.Interface(): deterministic; for reflect.New results the fresh pointer", func(fv *FuncVerifier, st *State, env *Env, c *CallCtx) []Term {
+		fv.w.UFun("rv_iface", []Sort{SRef}, SRef, "")
+		return []Term{App(SRef, "rv_iface", c.recv)}
+	})
+	// ---- os / io: ghost effect log ----
+	openLike := func(fv *FuncVerifier, st *State, env *Env, c *CallCtx) []Term {
+		fok := fv.fresh("file", SRef)
+		err := fv.fresh("operr", SRef)
+		ok := eqT(err, Null)
+		// success: the file is created/truncated (effect), the handle is fresh and remembers its path; failure: no effect
+		st.Assume(Not(eqT(fok, Null)))
+		al := fv.heapGet(st, "$ghost:alloc", "(Array Ref Bool)")
+		st.Assume(Not(App(SBool, "select", al, fok)))
+		st.heap["$ghost:alloc"] = App(al.Sort, "store", al, fok, True)
+		log := fv.ghostLog(st, "fx")
+		e := fv.w.StructMk(fv.w.elemOf[log.Sort], []Term{IntLit(1), c.args[0]})
+		st.heap["$ghost:fx"] = Ite(ok, fv.w.SeqCat(log, fv.w.SeqUnit(log.Sort, e)), log)
+		fv.writeField(st, fok, "$file:path", "Seq_Int", c.args[0])
+		return []Term{Ite(ok, fok, Null), err}
+	}
+	reg("os.OpenFile", "os.OpenFile(name, O_TRUNC|O_CREATE..): on success appends Open(name) to the effect log and returns a fresh handle; on error has NO effect on the file (assumed)", openLike)
+	reg("os.Create", "os.Create(name): like os.OpenFile with O_TRUNC|O_CREATE", openLike)
+	externEffects["os.OpenFile"] = "fx"
+	externEffects["os.Create"] = "fx"
+	reg("os.RemoveAll", "os.RemoveAll(path): appends Remove(path) to the effect log (whether or not it reports an error)", func(fv *FuncVerifier, st *State, env *Env, c *CallCtx) []Term {
+		fv.appendEffect(st, 3, c.args[0])
+		return []Term{fv.fresh("rmerr", SRef)}
+	})
+	externEffects["os.RemoveAll"] = "fx"
+	reg("os.ReadFile", "os.ReadFile: no effect; result arbitrary", func(fv *FuncVerifier, st *State, env *Env, c *CallCtx) []Term {
+		return fv.freshResults(st, c.sig)
+	})
+	reg("strconv.Itoa", "strconv.Itoa: deterministic (uninterpreted decimal rendering)", func(fv *FuncVerifier, st *State, env *Env, c *CallCtx) []Term {
+		return []Term{fv.uf("itoa", "Seq_Int", "", c.args[0])}
+	})
+	reg("path.Join", "path.Join: deterministic function of its elements", func(fv *FuncVerifier, st *State, env *Env, c *CallCtx) []Term {
+		return []Term{fv.uf("path_join", "Seq_Int", "", fv.w.SeqLit(fv.w.SeqSort("Seq_Int"), c.args))}
+	})
+	reg("path/filepath.Join", "filepath.Join: deterministic function of its elements", func(fv *FuncVerifier, st *State, env *Env, c *CallCtx) []Term {
+		return []Term{fv.uf("filepath_join", "Seq_Int", "", fv.w.SeqLit(fv.w.SeqSort("Seq_Int"), c.args))}
+	})
+	reg("os.IsNotExist", "os.IsNotExist: deterministic predicate on the error", func(fv *FuncVerifier, st *State, env *Env, c *CallCtx) []Term {
+		return []Term{fv.uf("os_isnotexist", SBool, "", c.args[0])}
+	})
+	reg("(*os.File).Write", "File.Write: appends Write(path of the handle) to the effect log", func(fv *FuncVerifier, st *State, env *Env, c *CallCtx) []Term {
+		fv.oblige(st, env, "S", "nilderef", Not(eqT(c.recv, Null)), c.call.Lparen, "write to non-nil *os.File")
+		fv.appendEffect(st, 2, fv.readField(st, c.recv, "$file:path", "Seq_Int"))
+		return []Term{fv.fresh("n", SInt), fv.fresh("werr", SRef)}
+	})
+	externEffects["(*os.File).Write"] = "fx"
+	reg("(*os.File).Close", "File.Close: no modelled effect", func(fv *FuncVerifier, st *State, env *Env, c *CallCtx) []Term {
+		return []Term{fv.fresh("cerr", SRef)}
+	})
+	reg("go/format.Node", "format.Node(dst, fset, node): writes (unspecified) text to dst: appends Write(path of dst) to the effect log and 'print' to the formatter pipeline; the text itself is the assumed contract E-fmt", func(fv *FuncVerifier, st *State, env *Env, c *CallCtx) []Term {
+		fv.pipelineT(st, fv.w.StrLit("print"))
+		fv.appendEffect(st, 2, fv.readField(st, c.args[0], "$file:path", "Seq_Int"))
+		return []Term{fv.fresh("fmterr", SRef)}
+	})
+	externEffects["go/format.Node"] = "fx"
+	reg("io.Copy", "io.Copy(dst, src) between in-memory buffers: appends src's content to dst's and drains src; the error is nil (bytes.Buffer reads and writes do not fail)", func(fv *FuncVerifier, st *State, env *Env, c *CallCtx) []Term {
+		src := fv.readField(st, c.args[1], contentKey, "Seq_Int")
+		fv.writerAppend(st, env, c.args[0], src, c.call)
+		fv.writeField(st, c.args[1], contentKey, "Seq_Int", fv.w.SeqEmpty("Seq_Int"))
+		return []Term{fv.w.SeqLen(src), Null}
+	})
+	externEffects["io.Copy"] = "content"
+	reg("go/parser.ParseFile", "parser.ParseFile: deterministic in (filename, src, mode); no effect; exactly one of (file, err) is nil", func(fv *FuncVerifier, st *State, env *Env, c *CallCtx) []Term {
+		f := fv.uf("parser_file", SRef, "", c.args[1], c.args[2], c.args[3])
+		e := fv.uf("parser_err", SRef, "", c.args[1], c.args[2], c.args[3])
+		st.Assume(eqT(eqT(f, Null), Not(eqT(e, Null))))
+		if !env.spec {
+			fv.pipelineT(st, fv.w.SeqCat(fv.w.StrLit("parse|"), fv.uf("itoa", "Seq_Int", "", c.args[3])))
+			raw := fv.eval(st, &Env{info: env.info, binds: env.binds, names: env.names, old: env.old, oldB: env.oldB, entry: env.entry, spec: true}, c.call.Args[2])
+			if raw.Sort == "Seq_Int" {
+				st.heap["$ghost:parsed"] = raw
+			} else {
+				st.heap["$ghost:parsed"] = fv.fresh("parsedtext", "Seq_Int")
+			}
+			st.heap["$ghost:parsedName"] = c.args[1]
+		}
+		return []Term{f, e}
+	})
+	reg("go/ast.SortImports", "ast.SortImports: rewrites the syntax tree in place; recorded in the ghost formatter pipeline (its effect on the text is part of the assumed contract E-fmt)", func(fv *FuncVerifier, st *State, env *Env, c *CallCtx) []Term {
+		fv.pipelineT(st, fv.w.StrLit("sortimports"))
+		return nil
+	})
+	reg("mvdan.cc/gofumpt/format.File", "gofumpt format.File(fset, file, Options): rewrites the syntax tree in place; recorded in the ghost formatter pipeline together with Options.LangVersion and Options.ModulePath", func(fv *FuncVerifier, st *State, env *Env, c *CallCtx) []Term {
+		w := fv.w
+		t := w.StrLit("gofumpt|")
+		if w.IsStruct(c.args[2].Sort) {
+			t = w.SeqCat(w.SeqCat(w.SeqCat(t, w.StructGet(c.args[2], "LangVersion")), w.StrLit("|")), w.StructGet(c.args[2], "ModulePath"))
+		}
+		fv.pipelineT(st, t)
+		return nil
+	})
+	reg("errors.As", "errors.As(err, &target): target receives an arbitrary value; deterministic result", func(fv *FuncVerifier, st *State, env *Env, c *CallCtx) []Term {
+		if u, ok := ast.Unparen(c.call.Args[1]).(*ast.UnaryExpr); ok {
+			if t := fv.typeOf(env, u.X); t != nil {
+				nv := fv.fresh("astarget", fv.sortOf(t))
+				fv.assignTo(st, env, u.X, nv, nil)
+			}
+		}
+		return []Term{fv.fresh("asok", SBool)}
+	})
+	// ---- text/scanner: ghost source (rune sequence) and cursor ----
+	reg("(*text/scanner.Scanner).Init", "Scanner.Init(r): the scanner will deliver the runes of everything r contains ([]rune(content), invalid bytes as U+FFFD); ASSUMES the content does not start with U+FEFF (a leading BOM is skipped by text/scanner: known finding for templates)", func(fv *FuncVerifier, st *State, env *Env, c *CallCtx) []Term {
+		fv.oblige(st, env, "S", "nilderef", Not(eqT(c.recv, Null)), c.call.Lparen, "method call on non-nil *scanner.Scanner")
+		content := fv.readField(st, c.args[0], contentKey, "Seq_Int")
+		fv.writeField(st, c.recv, "$scan:src", "Seq_Int", App("Seq_Int", fv.strFuncs("str2runes"), content))
+		fv.writeField(st, c.recv, "$scan:pos", SInt, IntLit(0))
+		return []Term{c.recv}
+	})
+	externEffects["(*text/scanner.Scanner).Init"] = "scanner"
+	reg("(*text/scanner.Scanner).Next", "Scanner.Next(): returns the rune at the cursor and advances it; at the end of the source returns EOF (-1) and the cursor stays one past the end", func(fv *FuncVerifier, st *State, env *Env, c *CallCtx) []Term {
+		fv.oblige(st, env, "S", "nilderef", Not(eqT(c.recv, Null)), c.call.Lparen, "method call on non-nil *scanner.Scanner")
+		w := fv.w
+		src := fv.readField(st, c.recv, "$scan:src", "Seq_Int")
+		pos := fv.readField(st, c.recv, "$scan:pos", SInt)
+		inRange := Lt(pos, w.SeqLen(src))
+		r := Ite(inRange, w.SeqAt(src, pos), IntLit(-1))
+		fv.writeField(st, c.recv, "$scan:pos", SInt, Ite(inRange, Add(pos, IntLit(1)), Add(w.SeqLen(src), IntLit(1))))
+		return []Term{r}
+	})
+	externEffects["(*text/scanner.Scanner).Next"] = "scanner"
 	// ---- regexp ----
 	reg("(*regexp.Regexp).FindStringSubmatch", "FindStringSubmatch(s): deterministic in (regexp, s); the result is empty (no match) or has 1+NumSubexp elements; nothing is assumed about the groups here (pattern-specific facts are `assume` clauses of the caller)", func(fv *FuncVerifier, st *State, env *Env, c *CallCtx) []Term {
 		fv.oblige(st, env, "S", "nilderef", Not(eqT(c.recv, Null)), c.call.Lparen, "method call on non-nil *regexp.Regexp")
@@ -486,6 +622,13 @@ func (fv *FuncVerifier) sortedKeys(dom Term) Term {
 		fv.w.bySym["enum_str"] = d
 	}
 	return App(ss, "sortedkeys", dom)
+}
+
+// pipelineT records a formatter step in the ghost pipeline log (C01).
+func (fv *FuncVerifier) pipelineT(st *State, step Term) {
+	seq := fv.w.SeqSort("Seq_Int")
+	log := fv.heapGet(st, "$ghost:pipeline", seq)
+	st.heap["$ghost:pipeline"] = fv.w.SeqCat(log, fv.w.SeqUnit(seq, step))
 }
 
 // packAny boxes the variadic ...any tail into one Seq_Ref term.
